@@ -42,6 +42,9 @@ def spell(code, W, ns):
         "Ann[A]": lambda: typing.Annotated[A, "meta"], "A": lambda: A, "'A'": lambda: "KA", "'A|B'": lambda: "KA | KB",
         "Ann[A|B]": lambda: typing.Annotated[A | B, 1, 2], "'Opt[A]'": lambda: "typing.Optional[KA]",
         "list[A]": lambda: list[A], "List[A]": lambda: typing.List[A], "'list[A]'": lambda: "list[KA]",
+        "'Any'": lambda: "typing.Any", "'object'": lambda: "object", "'Ann[A]'": lambda: "typing.Annotated[KA, 'meta']",
+        "'tU[A,B]'": lambda: "typing.Union[KA, KB]", "'(A,B)'": lambda: "(KA, KB)", "'Ann[A|B]'": lambda: "typing.Annotated[KA | KB, 1]",
+        "'A|None'": lambda: "KA | None", "'Lit[0,1]'": lambda: "typing.Literal[0, 1]", "'List[A]'": lambda: "typing.List[KA]",
         "Lit[0,1]": lambda: typing.Literal[0, 1], "Lit[1,0]": lambda: typing.Literal[1, 0],
         "Lit[0,'a']": lambda: typing.Literal[0, "a"], "Lit['a',0]": lambda: typing.Literal["a", 0],
         "Lit[1,2,3]": lambda: typing.Literal[1, 2, 3], "Lit[3,1,2]": lambda: typing.Literal[3, 1, 2],
@@ -57,7 +60,8 @@ PAIRS = [
     ("oU[A,B]", "oU[B,A]"), ("tU[A,B,C]", "C|A|B"), ("tU[A,B,C]", "(B,C,A)"), ("A|B", "'A|B'"), ("A|B", "Ann[A|B]"),
     ("Opt[A]", "A|None"), ("Opt[A]", "None|A"), ("Opt[A]", "tU[A,None]"), ("Opt[A]", "(A,NoneType)"), ("Opt[A]", "'Opt[A]'"),
     ("missing", "Any"), ("missing", "object"), ("Any", "object"),
-    ("Ann[A]", "A"), ("'A'", "A"),
+    ("Ann[A]", "A"), ("'A'", "A"), ("'Any'", "object"), ("'Any'", "missing"), ("'object'", "Any"), ("'Ann[A]'", "A"), ("'Ann[A]'", "Ann[A]"),
+    ("'tU[A,B]'", "A|B"), ("'(A,B)'", "tU[A,B]"), ("'Ann[A|B]'", "A|B"), ("'A|None'", "Opt[A]"), ("'Lit[0,1]'", "Lit[1,0]"), ("'List[A]'", "list[A]"),
     ("list[A]", "List[A]"), ("list[A]", "'list[A]'"),
     ("Lit[0,1]", "Lit[1,0]"), ("Lit[0,'a']", "Lit['a',0]"), ("Lit[1,2,3]", "Lit[3,1,2]"),
 ]
